@@ -12,7 +12,7 @@
    Operations: <<"add",k,force>>  <<"push","",0>>  <<"pop","",0>> (rotating)  <<"rt",channel,0>> (export + load: identity) *)
 EXTENDS Integers, Sequences, FiniteSets, TLC, Json
 
-CONSTANTS Keys, M, K, Tables, Est, QMax, Rotating, Channels, MaxDepth, MaxSubs, MaxReloads
+CONSTANTS Keys, M, K, Tables, Est, QMax, Rotating, Channels, MaxDepth, MaxSubs, MaxReloads, Queries
 
 VARIABLES pos, subs, total, calls, eff, manual, ins, man, reloads, hist, last
 vars == <<pos, subs, total, calls, eff, manual, ins, man, reloads, hist, last>>
@@ -37,6 +37,9 @@ PushQ(ss) == IF ~Rotating THEN Append(ss, NewSub)
 
 Ops == {<<"add", k, f>> : k \in Keys, f \in {0, 1}} \cup {<<"push", "", 0>>}
        \cup (IF Rotating THEN {<<"pop", "", 0>>} ELSE {}) \cup {<<"rt", c, 0>> : c \in Channels}
+       \cup (IF Queries THEN {<<"chk", k, 0>> : k \in Keys} \cup {<<"exp", "", 0>>} ELSE {})
+          \* queries as ACTIONS that change nothing (C19): a look-up, and an export WITHOUT reload (the same object lives on); they are
+          \* part of the history (ViewH) because the code may keep state across them (a memo of the last miss, cached exported parts)
 
 Init == /\ pos \in Tables
         /\ subs = <<NewSub>> /\ total = 0 /\ calls = 0 /\ eff = 0 /\ manual = FALSE
@@ -64,6 +67,9 @@ Do(o) ==
             ELSE /\ subs' = Tail(subs) /\ manual' = TRUE /\ man' = [k \in Keys |-> TRUE]
                  /\ UNCHANGED <<total, calls, eff, ins>>
                  /\ last' = [o |-> o, err |-> FALSE, was |-> FALSE]
+       [] o[1] \in {"chk", "exp"} ->
+            /\ UNCHANGED <<subs, total, calls, eff, manual, ins, man>>
+            /\ last' = [o |-> o, err |-> FALSE, was |-> FALSE]
        [] o[1] = "rt" ->
             /\ reloads < MaxReloads
             /\ UNCHANGED <<subs, total, calls, eff, manual, ins, man>>
@@ -75,6 +81,7 @@ Do(o) ==
 Next == \E o \in Ops : Do(o)
 Spec == Init /\ [][Next]_vars
 View == <<pos, subs, total, calls, eff, manual, ins, man, reloads>>
+ViewH == <<pos, subs, total, calls, eff, manual, ins, man, reloads, hist>>      \* enumerate histories (see CountMin.tla)
 Bound == Len(hist) <= MaxDepth /\ Len(subs) <= MaxSubs
 
 -----------------------------------------------------------------------------
